@@ -147,6 +147,7 @@ class BaseCollection(BaseDisplayRepr):
         for child in self._children:
             child._parent = None
         self._children = []
+        self._update_src_and_sens()
         self.add(*children, override_parent=True)
 
     @property
@@ -170,6 +171,7 @@ class BaseCollection(BaseDisplayRepr):
             else:
                 new_children.append(child)
         self._children = new_children
+        self._update_src_and_sens()
         src_list = format_obj_input(sources, allow="sources")
         self.add(*src_list, override_parent=True)
 
@@ -194,6 +196,7 @@ class BaseCollection(BaseDisplayRepr):
             else:
                 new_children.append(child)
         self._children = new_children
+        self._update_src_and_sens()
         sens_list = format_obj_input(sensors, allow="sensors")
         self.add(*sens_list, override_parent=True)
 
@@ -218,6 +221,7 @@ class BaseCollection(BaseDisplayRepr):
             else:
                 new_children.append(child)
         self._children = new_children
+        self._update_src_and_sens()
         coll_list = format_obj_input(collections, allow="collections")
         self.add(*coll_list, override_parent=True)
 
